@@ -61,8 +61,15 @@ def _classes():
         UVar = type("UVar", (p.Variable,), {})
         UTagVar = expr_dataclass()(type("UTagVar", (p.Variable,),
                                         {"__annotations__": {"tag": object}}))
+
+        def uinit_init(self, u, v):
+            object.__setattr__(self, "u", u)
+            object.__setattr__(self, "v", v)
+
+        UInit = expr_dataclass(init=False)(type("UInit", (Expression,), {
+            "__annotations__": {"u": object, "v": object}, "__init__": uinit_init}))
     tab = {"URoot": URoot, "UChild": UChild, "ULeg": ULeg, "ULegChild": ULegChild,
-           "UPlain": UPlain, "UVar": UVar, "UTagVar": UTagVar}
+           "UPlain": UPlain, "UVar": UVar, "UTagVar": UTagVar, "UInit": UInit}
     for name in ("Variable Wildcard DotWildcard StarWildcard FunctionSymbol Leaf AlgebraicLeaf "
                  "Call CallWithKwargs Subscript Lookup Sum Product Min Max BitwiseOr BitwiseXor "
                  "BitwiseAnd LogicalOr LogicalAnd Slice Quotient FloorDiv Remainder QuotientBase "
